@@ -128,6 +128,20 @@ def run(ctx):
     impls = matcher_impls(prog)
     ctx.floor("R1", "Matcher impls", len(impls), 22)
     r1_r2(ctx, impls)
+    # R2b: a by-name reference must resolve to the same referent in both methods (local registry first; a local hit
+    # without kinds must NOT fall through to a global rule of the same name)
+    rr = [i for i in impls if i["self"].startswith("ast_grep_config::rule::referent_rule::ReferentRule")]
+    if len(rr) != 1:
+        ctx.ob("R2", "ReferentRule impl", False, "found %d impls" % len(rr))
+    else:
+        m = prog.impl_method(rr[0], "match_node_with_env")
+        k = prog.impl_method(rr[0], "potential_kinds")
+        cm = lookup_chain(prog, m) if m else None
+        ck = lookup_chain(prog, k) if k else None
+        ok = cm is not None and ck is not None and cm[0] == ck[0] and cm[1] == ck[1]
+        ctx.ob("R2", "ReferentRule resolves kinds and matches through the same lookup", ok,
+               "lookup chain after eval_local — match_node_with_env: %s; potential_kinds: %s%s" % (cm and cm[0], ck and ck[0], "" if ok else " — the two methods can resolve `matches: id` to different rules (local vs global of the same id), so the kind set may belong to a rule that is not the one matched"),
+               where=(k or m).loc() if (k or m) else None)
     r3(ctx)
     r4(ctx)
     r5(ctx)
@@ -211,6 +225,39 @@ def r1_r2(ctx, impls):
                     ok = bool(precv & mrecv) or (precv == {()} and mrecv == {()})
                     ctx.ob("R2", "%s/potential_kinds -> %s" % (st, sorted(precv)), ok,
                            "potential_kinds asks self%s; match_node_with_env matches with self%s" % (sorted(precv), sorted(mrecv)), where=pk.loc(c.line))
+
+
+def lookup_chain(prog, f):
+    """For a ReferentRule method: the combinator chain applied to the result of eval_local up to the return value, with, for
+    closures handed to a combinator, which registry lookups they perform."""
+    start = [c for c in f.calls if c.name == "eval_local"]
+    if len(start) != 1:
+        return None
+    chain = []
+    cur = start[0]
+    for _ in range(8):
+        nxt = None
+        for c in f.calls:
+            if c is cur or not c.args:
+                continue
+            if any(o.kind == "call" and o.ref is cur and not o.proj for o in f.trace_operand(c.args[0])):
+                nxt = c
+                break
+        if nxt is None:
+            break
+        inner = []
+        for a in nxt.args[1:]:
+            for o in f.trace_operand(a):
+                g = None
+                if o.kind == "agg" and o.ref[2][1].get("def"):
+                    g = prog.fns.get(o.ref[2][1]["def"])
+                if g is not None:
+                    names = sorted({c2.name for h in prog.family(g) for c2 in h.calls if c2.name in ("eval_local", "eval_global", "flatten")})
+                    inner.append("+".join(names))
+        chain.append(nxt.name + ("(" + ",".join(inner) + ")" if inner else ""))
+        cur = nxt
+    ret_ok = any(o.kind == "call" and o.ref is cur for o in f.trace_local(0))
+    return chain, ret_ok
 
 
 # ------------------------------------------------------------------------------------------------
